@@ -149,7 +149,14 @@ class Report:
             print("  note: struct fields analysed under their reference names (layout unchanged): %s" % ", ".join("%s.%s (now %s)" % (k[0], k[1], v) for k, v in sorted(_b.RENAMED_FIELDS.items())))
         if getattr(_b, "ALIASES", None):
             cov["renamed_functions"] = {v: k for k, v in _b.ALIASES.items()}
-            print("  note: analysed under their reference names (recognised as pure renames): %s" % ", ".join("%s (now %s)" % (v, k) for k, v in sorted(_b.ALIASES.items())))
+            fz = getattr(_b, "FUZZY", {}) or {}
+            pure = {k: v for k, v in _b.ALIASES.items() if k not in fz}
+            if pure:
+                print("  note: analysed under their reference names (recognised as pure renames): %s" % ", ".join("%s (now %s)" % (v, k) for k, v in sorted(pure.items())))
+            if fz:
+                cov["reworked_functions"] = {v[0]: {"now": k, "resemblance": v[1]} for k, v in fz.items()}
+                print("  note: renamed AND reworked functions, identified by resemblance only to decide where the rules look: %s" %
+                      ", ".join("%s (now %s, %.2f)" % (v[0], k, v[1]) for k, v in sorted(fz.items())))
         cov.update(self.extra)
         ev = {"property_id": self.prop, "tier": self.tier, "seed": seed, "level": self.level, "coverage": cov,
               "assumptions": self.assumptions, "wall_s": round(wall, 3), "violations": len(self.violations)}
